@@ -91,6 +91,28 @@ def check_storage(w):
 class Mon(Driver):
     prop = PROP
 
+    def make_world(self, job):
+        w = Driver.make_world(self, job)
+        ef = job.get("evfault")
+        w.evfault_fired = 0
+        if ef:
+            # the provider's change feed fails after handing over `after` events of a batch (rate limit while paging): once
+            import cloudsync.exceptions as _ex
+            p = w.provs[ef["side"]]
+            inner = p.events
+
+            def events():
+                n = 0
+                for ev in inner():
+                    if not w.evfault_fired and n == ef["after"]:
+                        w.evfault_fired = 1
+                        raise _ex.CloudTemporaryError("change feed interrupted")
+                    n += 1
+                    yield ev
+            p.events = events
+            w.hooks["key"] = lambda world: (world.evfault_fired,)
+        return w
+
     def on_step(self, w, a, pre):
         if a not in ("IL", "IR", "S"):
             return []
@@ -113,6 +135,15 @@ def jobs(tier):
             out.append({"prop": PROP, "cfg": cfg, "order": "asc", "base": "B1", "scripts": A.stamp(sc),
                         "opts": {"storage": True},
                         "mode": {"k": None, "cap": 800 if tier == "quick" else 3000, "depth": 50, "audit": 0}})
+    # an intake batch that is cut short by a provider error after 1 or 2 events (users first: several events per batch)
+    for cfg in (["oo", "po"] if tier == "quick" else ["oo", "po", "pp"]):
+        for side in (0, 1):
+            sc = [[], []]
+            sc[side] = [["create", "c"], ["mkdir", "e"], ["write", "a"]]
+            for after in (1, 2):
+                out.append({"prop": PROP, "cfg": cfg, "order": "asc", "base": "B1", "scripts": A.stamp(sc),
+                            "opts": {"storage": True, "users_first": True}, "evfault": {"side": side, "after": after},
+                            "mode": {"k": None, "cap": 1500, "depth": 60, "audit": 0}})
     if tier == "quick":
         # a slice of the path-id flavour as well
         for i, sc in enumerate(hs):
